@@ -44,28 +44,33 @@ func (w *Writer) ExecuteBatch(batch store.KVBatch) error {
 	}
 
 	w.s.m.Lock()
+	defer w.s.m.Unlock()
+
+	// the batch is built on a private version of the (persistent) treap and
+	// published only when all of it has been applied
+	t := w.s.t
 	for k, mergeOps := range emulatedBatch.Merger.Merges {
 		kb := []byte(k)
 		var existingVal []byte
-		existingItem := w.s.t.Get(&Item{k: kb})
+		existingItem := t.Get(&Item{k: kb})
 		if existingItem != nil {
-			existingVal = w.s.t.Get(&Item{k: kb}).(*Item).v
+			existingVal = t.Get(&Item{k: kb}).(*Item).v
 		}
 		mergedVal, fullMergeOk := w.s.mo.FullMerge(kb, existingVal, mergeOps)
 		if !fullMergeOk {
 			return fmt.Errorf("merge operator returned failure")
 		}
-		w.s.t = w.s.t.Upsert(&Item{k: kb, v: mergedVal}, rand.Int())
+		t = t.Upsert(&Item{k: kb, v: mergedVal}, rand.Int())
 	}
 
 	for _, op := range emulatedBatch.Ops {
 		if op.V != nil {
-			w.s.t = w.s.t.Upsert(&Item{k: op.K, v: op.V}, rand.Int())
+			t = t.Upsert(&Item{k: op.K, v: op.V}, rand.Int())
 		} else {
-			w.s.t = w.s.t.Delete(&Item{k: op.K})
+			t = t.Delete(&Item{k: op.K})
 		}
 	}
-	w.s.m.Unlock()
+	w.s.t = t
 
 	return nil
 }
